@@ -40,6 +40,10 @@ pub struct RenderStats {
     pub noncanonical_choices: u32,
     /// line (1-based) on which each statement starts, in pre-order
     pub stmt_lines: Vec<u32>,
+    /// byte offset of the first token of each statement, in pre-order
+    pub stmt_offsets: Vec<usize>,
+    /// block nesting depth of each statement (0 = top level)
+    pub stmt_depths: Vec<u32>,
 }
 
 #[derive(Clone, Debug)]
@@ -69,6 +73,7 @@ struct R<'a> {
     at_line_start: bool,
     force_dash: bool,
     pending: Option<usize>,
+    depth: u32,
 }
 
 const NOISE_CHARS: &[&str] = &["!", "?", ";", ":", "[", "]", "{", "}", "#", "$", "%", "@", "^", "|", "~", "=", ")", "\\", "`"];
@@ -95,6 +100,7 @@ pub fn render(p: &Program, spelling: &[u32], opts: RenderOpts) -> Rendered {
         at_line_start: true,
         force_dash: false,
         pending: None,
+        depth: 0,
     };
     r.program(p);
     Rendered { text: r.out, stats: r.st }
@@ -115,6 +121,7 @@ pub fn render_expr_canonical(e: &Expr) -> String {
         at_line_start: true,
         force_dash: false,
         pending: None,
+        depth: 0,
     };
     r.expr(e);
     r.out
@@ -154,6 +161,7 @@ impl<'a> R<'a> {
     fn tok(&mut self) {
         if let Some(i) = self.pending.take() {
             self.st.stmt_lines[i] = self.line;
+            self.st.stmt_offsets[i] = self.out.len();
         }
     }
 
@@ -710,9 +718,11 @@ impl<'a> R<'a> {
         if b.is_empty() {
             self.blank_line();
         } else {
+            self.depth += 1;
             for s in b {
                 self.stmt(s, false);
             }
+            self.depth -= 1;
         }
     }
 
@@ -725,6 +735,8 @@ impl<'a> R<'a> {
         // the statement starts on the line of its first token, not of leading comments
         let line_idx = self.st.stmt_lines.len();
         self.st.stmt_lines.push(0);
+        self.st.stmt_offsets.push(0);
+        self.st.stmt_depths.push(self.depth);
         self.pending = Some(line_idx);
         match s {
             Stmt::Assign { dest, value, op } => {
@@ -979,11 +991,13 @@ impl<'a> R<'a> {
                     self.blank_line();
                 } else {
                     let n = body.len();
+                    self.depth += 1;
                     for (k, st) in body.iter().enumerate() {
                         let terminator = matches!(st, Stmt::If { els: Some(_), .. });
                         debug_assert!(!terminator || k == n - 1, "if/else must end a function body");
                         self.stmt(st, terminator && k == n - 1);
                     }
+                    self.depth -= 1;
                     self.blank_line();
                 }
             }
